@@ -259,10 +259,6 @@ def _execute(prog, rw, out):
     core.bump(out["faults"], "preemption", s.preemptions)
     if mon.max_r >= 2:
         core.bump(out["probes"], "two_readers_inside")
-    if any(tag.startswith("acq:") for _, tag in s.events) and \
-            any(t[1] > 0 for t in s.trace):
-        pass
-    nblocked = sum(1 for x in s.trace if False)
     if _saw_block(s):
         core.bump(out["probes"], "acquire_blocked")
     if _writer_blocked_reader(s, prog):
@@ -359,13 +355,7 @@ def _find_locks(lock, ns):
 
 
 def _saw_block(s):
-    got = set()
-    for i, (tid, tag) in enumerate(s.events):
-        if tag.startswith("acq:"):
-            got.add((tid, tag[4:]))
-        elif tag.startswith("got:"):
-            got.discard((tid, tag[4:]))
-    # a blocked acquire shows as acq ... (other thread events) ... got
+    # a blocked acquire shows as acq ... (another thread's rel) ... got
     last_acq = {}
     for i, (tid, tag) in enumerate(s.events):
         if tag.startswith("acq:"):
